@@ -405,30 +405,48 @@ func (P *Program) checkModFrame(fn *ssa.Function, ct *Contract, mapKey func(*typ
 			return
 		}
 		callee := c.StaticCallee()
+		var cct *Contract
 		if callee == nil {
-			bad = append(bad, via+pos(p)+": dynamic call")
-			return
+			for _, k := range []string{fieldFuncVarKey(c.Value), globalFuncVarKey(c.Value)} {
+				if k != "" && P.db.Contracts[k] != nil {
+					cct = P.db.Contracts[k]
+				}
+			}
+			if cct == nil {
+				bad = append(bad, via+pos(p)+": dynamic call")
+				return
+			}
+		} else {
+			cct = P.contractFor(callee)
 		}
-		if cct := P.contractFor(callee); cct != nil && (cct.ModNothing || len(cct.Mods) > 0) {
+		calleeName := "function value"
+		if callee != nil {
+			calleeName = fnKey(callee)
+		}
+		if cct != nil && (cct.ModNothing || len(cct.Mods) > 0) {
 			if cct.ModNothing {
 				return
 			}
 			for _, m := range cct.Mods {
 				if m.Object != "" || m.Younger != "" {
-					bad = append(bad, via+pos(p)+": callee frame has object/younger clauses: "+fnKey(callee))
+					bad = append(bad, via+pos(p)+": callee frame has object/younger clauses: "+calleeName)
 					return
 				}
 				for _, f2 := range m.Fields {
 					if !fields[f2] {
-						bad = append(bad, via+pos(p)+": callee "+shortKey(fnKey(callee))+" writes field "+f2+" which is not listed")
+						bad = append(bad, via+pos(p)+": callee "+shortKey(calleeName)+" writes field "+f2+" which is not listed")
 					}
 				}
 				for _, k2 := range m.Kinds {
 					if !kinds[k2] {
-						bad = append(bad, via+pos(p)+": callee "+shortKey(fnKey(callee))+" writes kind "+k2+" which is not listed")
+						bad = append(bad, via+pos(p)+": callee "+shortKey(calleeName)+" writes kind "+k2+" which is not listed")
 					}
 				}
 			}
+			return
+		}
+		if callee == nil {
+			bad = append(bad, via+pos(p)+": dynamic call")
 			return
 		}
 		if callee.Blocks != nil && P.inRepo(callee) && depth < 4 {
